@@ -1405,6 +1405,8 @@ func (c *Client) sendSingleMsg(client *smtp.Client, message *Msg) error {
 		}
 		if resetSendErr := client.Reset(); resetSendErr != nil {
 			retError.errlist = append(retError.errlist, resetSendErr)
+			// the state of the transaction on the server is unknown, do not reuse the connection
+			_ = client.Close()
 		}
 		return retError
 	}
@@ -1428,6 +1430,8 @@ func (c *Client) sendSingleMsg(client *smtp.Client, message *Msg) error {
 	if hasError {
 		if resetSendErr := client.Reset(); resetSendErr != nil {
 			rcptSendErr.errlist = append(rcptSendErr.errlist, resetSendErr)
+			// the state of the transaction on the server is unknown, do not reuse the connection
+			_ = client.Close()
 		}
 		return rcptSendErr
 	}
